@@ -24,6 +24,7 @@ type PropertySpec struct {
 	Emitted    []string          `json:"emitted"`    // emitted template functions verified against `emitted func` contracts
 	EmittedSaf []string          `json:"emitted_safety"`
 	Replayers  map[string]string `json:"replayers"` // obligation-name prefix -> replayer
+	Sweep      []string          `json:"sweep"`      // packages whose every function is checked in bounds mode (index, slice, type assertion, explicit panic), no annotation needed
 	Bounded    []string          `json:"bounded"`   // bounded stand-ins (thorough tier)
 	Assumed    []string          `json:"assumed"`   // assumed contracts the property relies on
 	Residue    string            `json:"residue"`
@@ -84,6 +85,7 @@ type checkRun struct {
 	timeout   time.Duration
 	replayDir string
 	knownReplays []map[string]any
+	swept     int
 }
 
 func cmdCheck(args []string) int {
@@ -245,6 +247,22 @@ func (run *checkRun) execute(verbose bool) int {
 			addUnit(w.VerifyFunc(fi, c, o))
 		}()
 	}
+	// zero-annotation bounds sweep
+	if len(spec.Sweep) > 0 {
+		wg.Add(1)
+		go func() {
+			defer wg.Done()
+			for _, u := range w.boundsSweep(spec.Sweep, run.timeout) {
+				u.Kind = "sweep"
+				run.mu.Lock()
+				run.swept++
+				run.mu.Unlock()
+				if len(u.Obls) > 0 || u.Status != "ok" {
+					addUnit(u)
+				}
+			}
+		}()
+	}
 	// lemmas
 	for _, name := range w.LemmaOrd {
 		match := false
@@ -377,6 +395,26 @@ func (run *checkRun) report(verbose bool) int {
 		}
 		viols = append(viols, violation{Obligation: o.Name, Unit: o.Func, Status: o.Status, Reason: o.Raw, Model: o.Model, Text: o.Text, Where: o.Where})
 	}
+	// bounded families: a member that fails on the real code is a violation with its input attached
+	type bfail struct {
+		name string
+		rec  map[string]any
+	}
+	var bfails []bfail
+	for _, b := range run.bounded {
+		if st, _ := b["status"].(string); strings.HasPrefix(st, "error") {
+			viols = append(viols, violation{Obligation: fmt.Sprint(b["name"]), Status: "bounded-check-broken", Reason: st})
+		}
+		fl, _ := b["failures"].([]map[string]any)
+		for _, f := range fl {
+			name := fmt.Sprint(f["name"])
+			if run.isKnown(name) || run.isKnown(name+":"+fmt.Sprint(f["case"])) {
+				knownSeen[name] = true
+				continue
+			}
+			bfails = append(bfails, bfail{name, f})
+		}
+	}
 	for _, name := range sortedKeysKF(run.known) {
 		if knownSeen[name] {
 			k := run.known[name]
@@ -387,11 +425,19 @@ func (run *checkRun) report(verbose bool) int {
 		fmt.Printf("check is broken: property %s generated zero obligations\n", id)
 		return 3
 	}
-	fmt.Printf("property %s: %d obligations, %d discharged, %d known findings, %d violations\n", id, nObl, nProved, len(knownSeen), len(viols))
-	if len(viols) == 0 {
+	fmt.Printf("property %s: %d obligations, %d discharged, %d known findings, %d violations\n", id, nObl, nProved, len(knownSeen), len(viols)+len(bfails))
+	if len(viols) == 0 && len(bfails) == 0 {
 		return 0
 	}
 	os.MkdirAll(run.replayDir, 0o755)
+	for i, bf := range bfails {
+		path := filepath.Join(run.replayDir, fmt.Sprintf("%s.%d.json", safeName(bf.name), i))
+		rec := map[string]any{"property": id, "obligation": bf.name, "status": "bounded family member fails on the real plugin binary", "failing_input": bf.rec,
+			"how_to_replay": "write failing_input.schema to a file and run: /verif/bin/govc gen " + strings.TrimPrefix(bf.name, "C16.family.") + " <file> '" + fmt.Sprint(bf.rec["parameter"]) + "'"}
+		data, _ := json.MarshalIndent(rec, "", " ")
+		os.WriteFile(path, data, 0o644)
+		fmt.Printf("VIOLATION property=%s replay=%s obligation=%s case=%q (bounded family, replayed on the real plugin)\n", id, path, bf.name, fmt.Sprint(bf.rec["case"]))
+	}
 	for _, v := range viols {
 		rp := run.writeReplay(v)
 		suffix := ""
@@ -580,6 +626,7 @@ func (run *checkRun) writeEvidence(start time.Time, code int) {
 			"solver_ms_total":          solverMs,
 			"canaries_and_covers":      canaries,
 			"known_findings":           knownList,
+			"bounds_sweep_functions":   run.swept,
 			"known_finding_replays":    nonNilList(run.knownReplays),
 			"bounded_checks":           nonNilList(run.bounded),
 			"samples":                  samples,
